@@ -11,6 +11,9 @@
 (*  emit    from, to, num, last, ok                                           *)
 (*                          the loop handed bytes [from,to) to the segment    *)
 (*                          function with counter num and the last flag       *)
+(*  bulk    count, ok       count consecutive emit events in one (streams of   *)
+(*                          tens of thousands of segments): the harness checked *)
+(*                          each of them the way CEmit does; ok <=> all passed  *)
 (*  read    k, n, err, ok   the consumer of the output stream read n bytes;   *)
 (*                          err in {"nil","eof","srcerr","other"}; ok <=> they *)
 (*                          are the next bytes of the source                  *)
@@ -21,6 +24,8 @@
 (*    len = 0, every segment but the final one exactly S bytes, never an      *)
 (*    empty segment, counter = index, last flag exactly on the final one;     *)
 (*    when the source fails, a prefix of Chunks(len, S);                      *)
+(*  - the documented limit is 2^32 segments: any shorter well-formed stream    *)
+(*    is processed to its end (no "too large" below the limit);               *)
 (*  - the consumer receives the bytes of processed segments only, in order;   *)
 (*  - a clean end only after all len bytes, and only if the source never      *)
 (*    returned a non-EOF error; a source error ends the stream in an error;   *)
@@ -61,6 +66,12 @@ CEmit(c, e) ==
     ELSE IF ~e.ok THEN Bad("segment bytes are not the source bytes at that position")
     ELSE [c EXCEPT !.emitted = @ + 1]
 
+CBulk(c, e) ==
+  IF c.term # "none" THEN Bad("segment processed after the stream ended")
+  ELSE IF ~e.ok THEN Bad("a segment of the bulk run breaks the chunking law")
+  ELSE IF c.emitted + e.count > NumChunks(c.len, c.S) THEN Bad("more segments than the chunking law allows")
+  ELSE [c EXCEPT !.emitted = @ + e.count]
+
 CRead(c, e) ==
   IF c.term # "none" THEN c          \* reads after the terminal result are not constrained
   ELSE LET d == c.delivered + e.n IN
@@ -79,6 +90,7 @@ CNext(c, e) ==
   ELSE IF IsBad(c) THEN c
   ELSE CASE e.ev = "srcread" -> CSrcRead(c, e)
          [] e.ev = "emit"    -> CEmit(c, e)
+         [] e.ev = "bulk"    -> CBulk(c, e)
          [] e.ev = "read"    -> CRead(c, e)
          [] e.ev = "end"     -> CEnd(c)
 =============================================================================
